@@ -236,3 +236,89 @@ theorem roundtrip_1d_native (mask : List Bool) (a : List α) (zero : α) :
     rw [List.getElem?_eq_none h1, List.getElem?_eq_none (by simp; omega)]
 
 end C01
+
+namespace C01
+
+/-- (1-D, e) constructor clause for `Array1D` (after repair D31 a native input is zeroed under the mask):
+    let `aₙ` be any native 1-D array. Supplying `aₙ` itself, or its slim form (when at least one entry is
+    masked, so that the two forms are distinguishable by length — the code's own test), with either storage
+    mode, yields a structure reporting `.slim = slim(aₙ)` and `.native = aₙ` with masked entries zeroed. -/
+theorem constructor_forms_agree_1d (mask : List Bool) (an : List α) (zero : α)
+    (han : an.length = mask.length)
+    (inp : List α)
+    (hinp : inp = an ∨ (inp = Impl.slim1dFrom mask an zero
+      ∧ (Impl.nativeForSlim1d mask).length ≠ mask.length))
+    (storeNative : Bool) :
+    ∃ st, Impl.convertArray1d mask inp storeNative zero = some st
+      ∧ Impl.viewSlim1d mask st zero = some (.slim (Impl.slim1dFrom mask an zero))
+      ∧ Impl.viewNative1d mask st zero = some (.native (Impl.applyMask1d mask an zero)) := by
+  have hlenA : (Impl.applyMask1d mask an zero).length = mask.length := by simp [Impl.applyMask1d]
+  have hlenS : (Impl.slim1dFrom mask an zero).length = (Impl.nativeForSlim1d mask).length := by
+    rw [slim1dFrom_eq]; simp
+  have hnat : Impl.native1dFrom mask (Impl.slim1dFrom mask an zero) zero
+      = Impl.applyMask1d mask an zero := roundtrip_1d_native mask an zero
+  have hidem : Impl.applyMask1d mask (Impl.applyMask1d mask an zero) zero
+      = Impl.applyMask1d mask an zero := by
+    apply List.ext_getElem
+    · simp [Impl.applyMask1d]
+    · intro k h1 h2
+      have hk : k < mask.length := by simpa [Impl.applyMask1d] using h1
+      simp only [Impl.applyMask1d, List.getElem_map, List.getElem_range]
+      split
+      · rfl
+      · rename_i hb
+        have hb' : mask[k] = false := by simpa [List.getD_eq_getElem?_getD, hk] using hb
+        simp [hk, hb']
+  have hslimA : Impl.slim1dFrom mask (Impl.applyMask1d mask an zero) zero
+      = Impl.slim1dFrom mask an zero := by
+    rw [← hnat, roundtrip_1d_slim mask _ zero hlenS]
+  -- with no masked entry the slim form IS the (masked) native form, so the length test cannot go wrong
+  have hallEq : (Impl.nativeForSlim1d mask).length = mask.length →
+      Impl.slim1dFrom mask an zero = Impl.applyMask1d mask an zero := by
+    intro hall
+    have hall' : ∀ x ∈ List.range mask.length, (!mask.getD x true) = true := by
+      rw [nativeForSlim1d_eq] at hall
+      have := (List.length_filter_eq_length_iff (p := fun x => !mask.getD x true)
+        (l := List.range mask.length)).mp (by simpa using hall)
+      exact this
+    rw [slim1dFrom_eq, nativeForSlim1d_eq, List.filter_eq_self.mpr hall']
+    apply List.map_congr_left
+    intro x hx
+    have := hall' x hx
+    simp only [Bool.not_eq_true'] at this
+    have this' : mask[x]?.getD true = false := by simpa using this
+    simp [this']
+  rcases hinp with h | ⟨h, hne⟩ <;> rw [h] <;> clear h <;> cases storeNative
+  · refine ⟨.slim (Impl.slim1dFrom mask (Impl.applyMask1d mask an zero) zero), ?_, ?_, ?_⟩
+    · simp [Impl.convertArray1d, han]
+    · by_cases hall : (Impl.nativeForSlim1d mask).length = mask.length
+      · simp [Impl.viewSlim1d, Impl.convertArray1d, Impl.Stored.values, hslimA, hlenS, hall]
+        first
+          | exact hallEq hall
+          | (rw [hallEq hall, hidem, hslimA]; try exact hallEq hall)
+      · simp [Impl.viewSlim1d, Impl.convertArray1d, Impl.Stored.values, hslimA, hlenS, hall]
+    · by_cases hall : (Impl.nativeForSlim1d mask).length = mask.length
+      · simp [Impl.viewNative1d, Impl.convertArray1d, Impl.Stored.values, hslimA, hlenS, hall]
+        rw [hallEq hall, hidem]
+      · simp [Impl.viewNative1d, Impl.convertArray1d, Impl.Stored.values, hslimA, hlenS, hall, hnat]
+  · refine ⟨.native (Impl.applyMask1d mask an zero), ?_, ?_, ?_⟩
+    · simp [Impl.convertArray1d, han]
+    · simp [Impl.viewSlim1d, Impl.convertArray1d, Impl.Stored.values, hlenA, hidem, hslimA]
+    · simp [Impl.viewNative1d, Impl.convertArray1d, Impl.Stored.values, hlenA, hidem]
+  · refine ⟨.slim (Impl.slim1dFrom mask an zero), ?_, ?_, ?_⟩
+    · simp [Impl.convertArray1d, hlenS, hne]
+    · simp [Impl.viewSlim1d, Impl.convertArray1d, Impl.Stored.values, hlenS, hne]
+    · simp [Impl.viewNative1d, Impl.convertArray1d, Impl.Stored.values, hlenS, hne, hnat]
+  · refine ⟨.native (Impl.native1dFrom mask (Impl.slim1dFrom mask an zero) zero), ?_, ?_, ?_⟩
+    · simp [Impl.convertArray1d, hlenS, hne]
+    · simp [Impl.viewSlim1d, Impl.convertArray1d, Impl.Stored.values, hnat, hlenA, hidem, hslimA]
+    · simp [Impl.viewNative1d, Impl.convertArray1d, Impl.Stored.values, hnat, hlenA, hidem]
+
+example :
+    Impl.convertArray1d [false, true, false, true] [1, 2, 3, 4] true (0 : Int)
+      = some (.native [1, 0, 3, 0])
+    ∧ Impl.convertArray1d [false, true, false, true] [1, 3] true (0 : Int)
+      = some (.native [1, 0, 3, 0])
+    ∧ (Impl.nativeForSlim1d [false, true, false, true]).length ≠ 4 := by decide
+
+end C01
